@@ -34,6 +34,13 @@ pub fn shards(tier: &str) -> Vec<String> {
         }
     }
     v.extend(super::allops::shards(tier));
+    // canonicity after the concurrent variant of set_var_order (C08's cases: rebuilt functions must be the
+    // old handles): 4 real workers, and two worker instances under every schedule with <= 2 preemptions
+    for s in super::c08::shards(tier) {
+        if s.contains(":conc4:") || (s.contains(":sched") && s.contains(":0123:t2")) {
+            v.push(format!("reord:{s}"));
+        }
+    }
     v.extend(hist::shards_for(&["mtbddf", "mtbddc", "zbdds"], &["n64c16t1"], if tier == "thorough" { 2 } else { 1 }));
     if tier == "thorough" {
         v.extend(hist::shards_for(&KINDS, &["n64c1t1", "n64c1024t1", "n64c16t2"], 2));
@@ -57,6 +64,10 @@ pub fn run(ctx: &mut Ctx) {
     }
     if shard.starts_with("allops:") {
         return super::allops::run(ctx, "C01");
+    }
+    if let Some(rest) = shard.strip_prefix("reord:") {
+        ctx.shard = rest.to_string();
+        return super::c08::run(ctx);
     }
     let depth = if ctx.thorough() { 5 } else { 4 };
     hist::run_shard(ctx, Prop::C01, depth);
